@@ -33,14 +33,16 @@ def _nums(s):
     return [float(x) for x in _NUM.findall(s)]
 
 
-def _close(a, b, slack):
-    """Two attribute strings equal up to `slack` on every embedded number."""
+def _close(a, b, slack, scale=None):
+    """Two attribute strings equal up to `slack` on every embedded number: relative to the
+    number itself, or to `scale` (the magnitude of the whole gradient's geometry - rounding of a
+    6-digit matrix moves every folded coordinate by about 1e-6 times that magnitude)."""
     if a == b:
         return True
     na, nb = _nums(a), _nums(b)
     if len(na) != len(nb) or _NUM.sub("#", a) != _NUM.sub("#", b):
         return False
-    return all(abs(x - y) <= slack * (1 + abs(x)) for x, y in zip(na, nb))
+    return all(abs(x - y) <= slack * (1 + max(abs(x), scale or 0.0)) for x, y in zip(na, nb))
 
 
 def equivalent(out_a, out_b, slack=3e-5):
@@ -62,8 +64,9 @@ def equivalent(out_a, out_b, slack=3e-5):
     def klass(g):
         attrs = {k: v for k, v in g.attrib.items() if k != "id"}
         stops = tuple(canon(s) for s in g)
+        scale = max([abs(v) for k, x in attrs.items() for v in _nums(x) if k != "gradientTransform"] or [0.0])
         for i, (t, at, st) in enumerate(reps):
-            if t == g.tag and st == stops and set(at) == set(attrs) and all(_close(at[k], attrs[k], slack) for k in at):
+            if t == g.tag and st == stops and set(at) == set(attrs) and all(_close(at[k], attrs[k], slack, scale) for k in at):
                 return i
         reps.append((g.tag, attrs, stops))
         return len(reps) - 1
